@@ -236,6 +236,8 @@ func main() {
 	switch os.Args[1] {
 	case "check":
 		os.Exit(cmdCheck(os.Args[2:]))
+	case "selftest":
+		os.Exit(cmdSelftest())
 	case "replay":
 		os.Exit(cmdReplay(os.Args[2]))
 	case "list":
@@ -441,4 +443,31 @@ func shortModel(m map[string]uint64) string {
 		n++
 	}
 	return "{" + sb.String() + " } (zero-valued variables omitted)"
+}
+
+func cmdSelftest() int {
+	l, err := load([]string{"otp"}, false)
+	if err != nil {
+		fmt.Println("ENGINE-ERROR selftest load:", err)
+		return 2
+	}
+	for _, s := range l.specs {
+		if s.Prop != "SELF" {
+			continue
+		}
+		e := newExec(l.prog, Config{Unwind: 100000, MaxSteps: 50000000, MaxConcretize: 1 << 20, Cases: map[string]int64{"x": 0}, Concrete: map[string]uint64{}, RealHMAC: true}, nil)
+		pr := e.runPath(s.Fn, nil, 0)
+		bad := 0
+		for _, ob := range e.obligs {
+			if ob.Status != "folded" {
+				bad++
+				fmt.Printf("selftest: assertion %s %s %s\n", ob.Name, ob.Status, ob.Note)
+			}
+		}
+		fmt.Printf("selftest %s: outcome=%s %s assertions=%d failed=%d ssa_instructions=%d\n", s.Name, pr.Outcome, firstN(pr.Msg, 600), len(e.obligs), bad, pr.Steps)
+		if pr.Outcome != "complete" || bad > 0 {
+			return 2
+		}
+	}
+	return 0
 }
